@@ -91,6 +91,22 @@ def search():
 
 C06 = COMMON + r'''
 def check_tolerant(s, **pskw):
+    if not pskw:
+        # the pylatexenc-2 entry point on the same input: a (nodes, pos, len) tuple with integer positions, no exception
+        import warnings
+        with warnings.catch_warnings():
+            warnings.simplefilter("ignore")
+            signal.alarm(5)
+            try:
+                r = LatexWalker(s, tolerant_parsing=True).get_latex_nodes()
+                if not (isinstance(r, tuple) and len(r) == 3 and isinstance(r[1], int) and isinstance(r[2], int)):
+                    return "tolerant get_latex_nodes() of %r returns %r" % (s, r)
+            except TimeoutError as e:
+                return "tolerant get_latex_nodes() of %r %s" % (s, e)
+            except Exception as e:
+                return "tolerant get_latex_nodes() of %r raised %s: %s" % (s, type(e).__name__, e)
+            finally:
+                signal.alarm(0)
     try:
         t = parse(s, True, **pskw)
     except TimeoutError as e:
@@ -123,6 +139,9 @@ def search():
                 return "tolerant parse of %r lost content parsed before the first error: nodes cover %r, expected to start with %r" % (s, v, g)
     for s in ["Price: 100# apples", r"\textbf{a#b}", "x #"]:
         m = check_tolerant(s, forbidden_characters="#")
+        if m: return m
+    for s in ["} a", "}", "\\end{x} a", "\\) a", "\\] a", "}}", "\\end{document}", "a \\) b", "$x \\] y$ z", "{g \\] h} i"]:
+        m = check_tolerant(s)
         if m: return m
     # input that stops where an argument is still expected
     for f in TRUNCATED:
